@@ -527,3 +527,26 @@ Proof.
   - rewrite (Hpf v w H). apply eqb_refl'.
   - destruct (string_to_bool v) as [b|]; [|discriminate]. inversion H; subst w. destruct b; reflexivity.
 Qed.
+
+(* a query that already carries the configuration is left alone: changed = false (this is how the
+   Config menu recognises the current configuration) *)
+Lemma make_url_go_stable : forall c fs q ch,
+  (forall f, In f fs -> url_field f = true -> vget q (f_url f) = url_value f c) ->
+  make_url_go fs c q ch = (q, ch).
+Proof.
+  intros c. induction fs as [|f fs IH]; intros q ch H; [reflexivity|].
+  cbn [make_url_go].
+  assert (Hskip : String.eqb (f_url f) "" || negb (f_saved f) = negb (url_field f)).
+  { unfold url_field. destruct (String.eqb (f_url f) ""), (f_saved f); reflexivity. }
+  rewrite Hskip. destruct (url_field f) eqn:UF; cbn [negb].
+  - rewrite (H f (or_introl eq_refl) UF). rewrite eqb_refl'. apply IH. intros g Hg. apply H. right. exact Hg.
+  - apply IH. intros g Hg. apply H. right. exact Hg.
+Qed.
+
+Lemma make_url_idempotent_lemma : forall fs c q,
+  table_ok fs = true -> make_url fs c (fst (make_url fs c q)) = (fst (make_url fs c q), false).
+Proof.
+  intros fs c q T. destruct (table_ok_split fs T) as [_ N2]. unfold make_url.
+  destruct (make_url_go_spec c fs q false N2) as [A _].
+  apply make_url_go_stable. exact A.
+Qed.
